@@ -241,6 +241,116 @@ def run(prog: Program) -> Results:
     for fnd in sub.findings:
         if fnd.rule == "R-C09-1":
             res.add("R-C01-6", fnd.key, fnd.where, fnd.message)
+    presence_tests(prog, res, "R-C01-7", renderer_functions(prog, cg))
     res.assumptions = ["glue between adjacent tokens (separator presence), line-comment/newline adjacency and integer/let/trailing-"
                        "comma normalisations are value-level facts about concatenated strings and are not decided"]
     return res
+
+
+# ------------------------------------------------------------------------------------------------ R-C01-7
+BUILTIN_SIZED = {"list", "dict", "set", "tuple", "str", "bytes", "frozenset", "Sequence", "Mapping", "MutableMapping",
+                 "MutableSequence", "Collection", "Sized", "UserList", "UserDict", "deque"}
+
+
+def falsy_capable(prog: Program) -> dict[str, str]:
+    """package classes whose instances can be false: they (or a base) define __bool__/__len__ or derive from a sized builtin"""
+    out = {}
+    for c in prog.classes:
+        for b in prog.mro(c):
+            cl = prog.classes.get(b)
+            if cl is None:
+                continue
+            for m in ("__bool__", "__len__"):
+                if prog.own_method(b, m) is not None:
+                    out.setdefault(c, f"{b}.{m}")
+            for bb in cl.bases:
+                if bb.split("[")[0].split(".")[-1] in BUILTIN_SIZED:
+                    out.setdefault(c, f"{b}({bb})")
+    return out
+
+
+def admitted_expression_classes(prog: Program, ann: str) -> set[str] | None:
+    """expression classes a field annotation admits; None when the annotation names no expression class"""
+    import re
+    toks = set(re.findall(r"[A-Za-z_][A-Za-z0-9_]*", ann))
+    expr = set(prog.expression_classes()) | {"NixExpression", "TypedExpression"}
+    named = toks & (expr | {c for c in prog.classes if "NixExpression" in prog.mro(c)})
+    if not named:
+        return None
+    out = set()
+    for c in named:
+        out.add(c)
+        out |= set(prog.subclasses(c))
+    return out
+
+
+def truthiness_operands(test: ast.AST):
+    """sub-expressions whose truth value alone decides (part of) a test"""
+    if isinstance(test, ast.BoolOp):
+        for v in test.values:
+            yield from truthiness_operands(v)
+    elif isinstance(test, ast.UnaryOp) and isinstance(test.op, ast.Not):
+        yield from truthiness_operands(test.operand)
+    elif isinstance(test, ast.Call) and isinstance(test.func, ast.Name) and test.func.id == "bool" and len(test.args) == 1:
+        yield from truthiness_operands(test.args[0])
+    elif isinstance(test, (ast.Attribute, ast.Name)):
+        yield test
+
+
+def presence_tests(prog: Program, res: Results, rid: str, functions) -> None:
+    r = res.rule(rid, "presence of an expression-valued slot is decided by identity (`is None`) or by a truth test that cannot be "
+                 "false for a present node: no class the slot admits defines __bool__/__len__ (an empty list or set literal is "
+                 "still a node that must be rendered)", floor=4)
+    falsy = falsy_capable(prog)
+    for f in functions:
+        owner = f
+        while owner.parent is not None:
+            owner = owner.parent
+        cls = owner.cls
+        ann_of = {}
+        a = f.node.args
+        for p in a.posonlyargs + a.args + a.kwonlyargs:
+            if p.annotation is not None:
+                ann_of[p.arg] = ast.unparse(p.annotation)
+        alias = {}
+        for n in walk_no_nested(f.node):
+            if isinstance(n, ast.Assign) and len(n.targets) == 1 and isinstance(n.targets[0], ast.Name) and isinstance(n.value, ast.Attribute):
+                alias.setdefault(n.targets[0].id, []).append(n.value)
+        tests = []
+        for n in walk_no_nested(f.node):
+            if isinstance(n, (ast.If, ast.While, ast.IfExp)):
+                tests.append(n.test)
+            elif isinstance(n, ast.Assert):
+                tests.append(n.test)
+            elif isinstance(n, ast.comprehension):
+                tests.extend(n.ifs)
+            elif isinstance(n, ast.BoolOp) and not any(n is t or any(n is x for x in ast.walk(t)) for t in tests):
+                # value-position `a or b` / `a and b`: every operand but the last is truth-tested
+                tests.extend(n.values[:-1])
+        for t in tests:
+            for x in truthiness_operands(t):
+                exprs = [x]
+                if isinstance(x, ast.Name) and len(alias.get(x.id, [])) == 1:
+                    exprs = alias[x.id]
+                for e in exprs:
+                    if not isinstance(e, ast.Attribute) or not isinstance(e.value, ast.Name):
+                        continue
+                    base_cls = cls if e.value.id == "self" else None
+                    if base_cls is None and e.value.id in ann_of:
+                        m = [c for c in prog.classes if c in ann_of[e.value.id].replace('"', "").split("|")[0].strip().split("[")[0:1]]
+                        base_cls = m[0] if m else None
+                    if base_cls is None or base_cls not in prog.classes:
+                        continue
+                    fld = prog.fields(base_cls).get(e.attr)
+                    if not fld:
+                        continue
+                    adm = admitted_expression_classes(prog, fld[0])
+                    if adm is None or fld[0].strip().startswith(("list[", "List[", "dict[", "tuple[")):
+                        continue
+                    r.instances += 1
+                    bad = sorted(c for c in adm if c in falsy)
+                    r.ob(not bad, {"site": f.key, "test": norm(t)[:60], "slot": f"{base_cls}.{e.attr}", "annotation": fld[0][:50]})
+                    for c in bad:
+                        res.add(rid, (f.key, f"{base_cls}.{e.attr}", "truth test on a slot that admits", c), f.loc(t),
+                                f"{f.key}: `{norm(t)[:70]}` decides whether `{base_cls}.{e.attr}` is present by its truth value, but the slot "
+                                f"admits {c}, whose instances can be false ({falsy[c]}): an empty {c} is rendered as if the slot were absent")
